@@ -287,6 +287,9 @@ class Scenario:
         self.published["image"] = os.path.join(self.out, "images", "Foo.png")
         self.prev["image"] = _blob(self.crng, self.p["prev_size"]) if self.p["prev"] else None
         self.body_chunks = [_blob(self.crng, n) for n in self.p["chunks"]]
+        if self.body_chunks and self.p["index"] % 3 == 0:
+            head = b"\xef\xbb\xbf<svg xmlns='http://www.w3.org/2000/svg'>"  # XML with a byte-order mark
+            self.body_chunks[0] = (head + self.body_chunks[0][len(head):]) if len(self.body_chunks[0]) > len(head) else head
         self.new["image"] = b"".join(self.body_chunks)
 
     def produce_download(self, tracer):
@@ -343,6 +346,11 @@ class Scenario:
     def prepare_download_fetcher(self):
         from mwlib.utils import unorganized
         self.url_bodies = [b"".join(_blob(self.crng, n) for n in sizes) for sizes in self.p["bodies"]]
+        for i, url in enumerate(self.p["urls"]):
+            if url.endswith(".svg") and self.url_bodies[i]:
+                # an XML document saved with a byte-order mark
+                head = b"\xef\xbb\xbf<svg xmlns='http://www.w3.org/2000/svg'>"
+                self.url_bodies[i] = head + self.url_bodies[i][len(head):]
         for i, (u, title) in enumerate(self.p["downloads"]):
             label = f"image{i}"
             self.published[label] = os.path.join(self.out, "images", unorganized.fs_escape(title))
@@ -724,6 +732,14 @@ def explore_scenario(p, root, stats, only=None):
         raise HarnessError(f"reference run of scenario {p['index']} ({p['kind']}) failed: exit {code} {ref and ref['info']}")
     expected_raise = (p["kind"] == "download" and p["mode"] in ("read-error", "429-forever")) or \
                      (p["kind"] == "render" and p["writer_fails"])
+    if ref["info"].get("raised") and not expected_raise:
+        # nothing was injected and the producer failed all the same: whatever it was about to
+        # publish is not there
+        stats["scenarios"] += 1
+        stats["points"] += 1
+        return {"fault": ["none", -1], "ref": ref,
+                "violation": ("A-final", f"{p['kind']}: the producer failed in a fault-free run ({ref['info']['raised'][:200]}): "
+                              f"the complete new version was never published")}
     if bool(ref["info"].get("raised")) != expected_raise:
         raise HarnessError(f"reference run of scenario {p['index']} ({p['kind']}): raised={ref['info'].get('raised')!r} "
                            f"expected_raise={expected_raise}\n{ref['info'].get('tb', '')}")
